@@ -254,6 +254,7 @@ func (obj *Package) Set(name string, value Object, privates ...bool) (vv *VarVal
 			PackagePanic(NewScope(), 0, obj, "Package %s is locked thus no new variables can be set.", obj.Name)
 		}
 		vv = &VarVal{Val: value, Pkg: obj, name: name}
+		VerifPoint("package.set.new")
 		obj.mu.Lock()
 		obj.vars[name] = vv
 		obj.mu.Unlock()
@@ -384,6 +385,7 @@ func (obj *Package) Remove(name string) (removed bool) {
 	}
 	delete(obj.classes, name)
 	obj.mu.Unlock()
+	VerifPoint("package.remove.unlocked")
 	pname := fmt.Sprintf("%s:%s", obj.Name, name)
 	for _, h := range unsetHooks {
 		h.fun(obj, name)
